@@ -61,6 +61,7 @@ def case(ctx, i):
         if p.ntus >= 2 and rng_.random() < (0.5 if symbolic else 0.3):
             p.tu_nodebug.add(p.ntus - 1)
     cat = dict(mutate.MIXED)
+    cat.update(mutate.EXTRA)       # + anonymous members becoming named and back (layout preserving)
     if symbolic:
         cat.update(mutate.SYMBOL)
     pr, why = pairs.make_pair(ctx, rng, d, cat, nmut=rng.randint(1, 5), decorate=deco, cfg=cfg)
